@@ -279,3 +279,188 @@ def order_blind(expr, name):
     if not blind:
       return False
   return True if seen else None
+
+
+BUILTIN_EXCEPTIONS = frozenset(n for n in dir(__import__('builtins')) if isinstance(getattr(__import__('builtins'), n), type)
+                               and issubclass(getattr(__import__('builtins'), n), BaseException))
+
+
+def raised_class(repo, f, s, depth=3):
+  """Name of the exception class a raise statement constructs: 'ValueError', another class name, 're-raise', or None when
+  the raised object is not followed to a construction (a helper that builds the exception is followed through its returns)."""
+  exc = s.exc
+  if exc is None:
+    return 're-raise'
+
+  def of_expr(e, fn, d):
+    if d <= 0:
+      return None
+    if isinstance(e, ast.Call):
+      nm = norm(e.func)
+      if nm in BUILTIN_EXCEPTIONS:
+        return nm
+      r = None
+      if isinstance(e.func, (ast.Name, ast.Attribute)):
+        try:
+          r = repo.resolve_dotted(fn.module, dotted(e.func))
+        except Exception:
+          r = None
+      if r and r[0] == 'func':
+        h = r[1]
+        rets = [x for x in walk_no_nested(h.node) if isinstance(x, ast.Return)]
+        names = {of_expr(x.value, h, d - 1) if x.value is not None else None for x in rets}
+        if len(names) == 1:
+          return names.pop()
+        return None
+      if r and r[0] == 'class':
+        c = r[1]
+        bases = [norm(b) for b in c.node.bases]
+        for b in bases:
+          if b in BUILTIN_EXCEPTIONS:
+            return 'ValueError' if b == 'ValueError' else c.name
+        return None
+      return None
+    if isinstance(e, ast.Name):
+      if e.id in BUILTIN_EXCEPTIONS:
+        return e.id
+      # the name bound by an enclosing `except ... as e`: re-raising what was caught
+      p = getattr(e, '_parent', None)
+      while p is not None and p is not fn.node:
+        if isinstance(p, ast.ExceptHandler) and p.name == e.id:
+          return 're-raise'
+        p = getattr(p, '_parent', None)
+      vals = [a.value for a in walk_no_nested(fn.node) if isinstance(a, ast.Assign) and len(a.targets) == 1
+              and isinstance(a.targets[0], ast.Name) and a.targets[0].id == e.id]
+      names = {of_expr(v, fn, d - 1) for v in vals}
+      if vals and len(names) == 1:
+        return names.pop()
+      return None
+    return None
+  return of_expr(exc, f, depth)
+
+
+
+
+def unfollowed_calls(repo, f, mentions=None):
+  """Calls left in f (after inlining) whose callee is defined in the repository: a module-level function (decorated,
+  generator, early returns ... whatever kept it from being inlined), a method reached through self / cls / a class name,
+  or a nested def.  With `mentions` (a set of names) only calls one of whose arguments reads one of those names.
+  An absence-based verdict about f ("no guard of this kind") is not final while such a call receives the data."""
+  out = []
+  nested = set(getattr(f, 'nested', {}) or {})
+  for c in walk_no_nested(f.node):
+    if not isinstance(c, ast.Call):
+      continue
+    fn = c.func
+    name = None
+    if isinstance(fn, ast.Name):
+      if fn.id in nested or ('%s.%s' % (f.module.name, fn.id)) in repo.functions:
+        name = fn.id
+      else:
+        r = repo.resolve_dotted(f.module, fn.id)
+        if r and r[0] == 'func':
+          name = fn.id
+    elif isinstance(fn, ast.Attribute):
+      r = None
+      try:
+        r = repo.resolve_dotted(f.module, dotted(fn))
+      except Exception:
+        r = None
+      if r and r[0] == 'func':
+        name = dotted(fn)
+      elif isinstance(fn.value, ast.Name) and f.cls is not None and fn.value.id in (f.params[:1] + ['cls']) \
+          and (fn.attr in f.cls.methods):
+        name = dotted(fn)
+    if name is None:
+      continue
+    if mentions is not None:
+      args = list(c.args) + [k.value for k in c.keywords]
+      if not any(isinstance(x, ast.Name) and x.id in mentions for a_ in args for x in ast.walk(a_)):
+        continue
+    out.append((c, name))
+  return out
+
+
+_PC = []
+
+
+def _pinned_classes():
+  """Classes of the pinned tree (mmsa/pinned_classes.json): an object of one of them is not a delegation to unknown code."""
+  if not _PC:
+    import json, os
+    with open(os.path.join(os.path.dirname(os.path.abspath(__file__)), 'pinned_classes.json')) as fh:
+      _PC.append(set(json.load(fh)))
+  return _PC[0]
+
+
+def delegations(repo, f):
+  """Places where function f (as normalised) hands work to repository code the rules do not follow: calls of functions
+  that are not anchors of the pinned tree and were not inlined (generators, decorated or recursive helpers, closures
+  defined once per branch), and constructions of classes none of whose methods is an anchor (a helper class introduced
+  by a refactoring: a state machine, a validator object, a pipeline).  While such a place exists, "f does not do X" is
+  not a fact about the program: X may be done there.  [(node, description)]"""
+  pinned = getattr(repo, 'pinned_names', None) or set()
+  out = []
+  pinned_classes = {q.rsplit('.', 1)[0] for q in pinned} | _pinned_classes()
+  for c, name in unfollowed_calls(repo, f):
+    r = None
+    try:
+      r = repo.resolve_dotted(f.module, dotted(c.func)) if isinstance(c.func, (ast.Name, ast.Attribute)) else None
+    except Exception:
+      r = None
+    h = r[1] if r and r[0] == 'func' else None
+    if h is None and isinstance(c.func, ast.Attribute) and f.cls is not None and c.func.attr in f.cls.methods:
+      h = f.cls.methods[c.func.attr]
+    if h is None and isinstance(c.func, ast.Name) and c.func.id in (getattr(f, 'nested', {}) or {}):
+      if f.nested[c.func.id].qualname not in pinned or c.func.id in getattr(f, 'ambiguous_nested', ()):
+        out.append((c, 'the local function %s' % c.func.id))
+      continue
+    if h is not None and h.qualname.replace('@setter', '') not in pinned:
+      out.append((c, 'the helper %s' % h.qualname))
+  for c in walk_no_nested(f.node):
+    if isinstance(c, ast.Call) and isinstance(c.func, (ast.Name, ast.Attribute)):
+      try:
+        r = repo.resolve_dotted(f.module, dotted(c.func))
+      except Exception:
+        r = None
+      if r and r[0] == 'class' and r[1].qualname not in pinned_classes:
+        out.append((c, 'an object of the helper class %s' % r[1].qualname))
+      # a module-level callable object:  _validate = _Checks(...)  ...  _validate(self, group)
+      if isinstance(c.func, ast.Name) and c.func.id in getattr(f.module, 'assigns', {}) and isinstance(f.module.assigns[c.func.id], (ast.Call, ast.Lambda)) \
+          and not any(isinstance(x, ast.Name) and x.id == c.func.id and isinstance(x.ctx, ast.Store) for x in ast.walk(f.node)):
+        v = f.module.assigns[c.func.id]
+        lib = False
+        if isinstance(v, ast.Call):
+          try:
+            rv = repo.resolve_dotted(f.module, dotted(v.func)) if isinstance(v.func, (ast.Name, ast.Attribute)) else None
+          except Exception:
+            rv = None
+          lib = bool(rv and rv[0] == 'lib') and not any(isinstance(a_, ast.Name) and (('%s.%s' % (f.module.name, a_.id)) in repo.functions) for a_ in ast.walk(v))
+        if not lib:
+          out.append((c, 'the module-level callable %s = %s' % (c.func.id, norm(v)[:40])))
+  return out
+
+
+def class_delegations(repo, cls):
+  """Ways in which methods of `cls` can come from somewhere the rules do not look: a class decorator other than
+  dataclasses.dataclass (it may install methods), base classes other than object, a metaclass, a class-level
+  assignment of a dunder (`__lt__ = helper`).  While one exists, "the class defines no method M" is not a fact."""
+  out = []
+  for d in cls.node.decorator_list:
+    t = norm(d.func if isinstance(d, ast.Call) else d)
+    if t.split('.')[-1] in ('dataclass', 'total_ordering') and not t.startswith('_'):
+      if t.split('.')[-1] == 'total_ordering':
+        out.append('the class decorator @%s' % t)
+      continue
+    out.append('the class decorator @%s' % t)
+  for b in cls.node.bases:
+    if norm(b) not in ('object',):
+      out.append('the base class %s' % norm(b))
+  for k in cls.node.keywords:
+    out.append('the class keyword %s' % (k.arg or '**'))
+  for st in cls.node.body:
+    if isinstance(st, ast.Assign):
+      for t in st.targets:
+        if isinstance(t, ast.Name) and t.id.startswith('__') and t.id.endswith('__') and t.id not in ('__slots__', '__hash__', '__doc__'):
+          out.append('the class-level binding %s = %s' % (t.id, norm(st.value)[:40]))
+  return out
